@@ -338,6 +338,77 @@ CHECKS = {
 NOT_YET = {}
 
 
+# what the checks gained after the first version of the table above (see
+# DESIGN.md sections 9 and 11)
+ADDED = {
+    'C01': 'a line-granular single-preemption tier (thread A suspended at '
+           'every line event of yaql code inside its parse on a warm '
+           'engine, and at first-executed lines of the first parse on a '
+           'brand-new engine, while B parses).',
+    'C02': 'the stock tables are pinned in the check; engines created '
+           'part-way through an insertion sequence and used directly, via '
+           'copy() and with per-call options are judged against engines of '
+           'untouched factories with the same table.',
+    'C04': 'histories of evaluations without a context (with and then '
+           'without data); def names under which the library has methods.',
+    'C05': 'family members are also declared through real Python '
+           'signatures with specs decorators, or as one callable typed per '
+           'registration through parameter_type_func; union types in the '
+           'lattice; aliases and lazy keyword-only parameters.',
+    'C06': 'the same three ways of declaring members as C05; keyword-passed '
+           'arguments, zero-argument ties, partial orders, union types.',
+    'C07': 'the canary nested in lists and maps at every position; '
+           'histories in which an auto-yaqlizing object hands out instances '
+           'of slotted, plain and library classes before a never-yaqlized '
+           'instance of the same class is probed.',
+    'C08': 'integers as data (pow, shifts, repeated squaring, products, '
+           'supplied values) under the quota; containers in hashable '
+           'positions; literal templates.',
+    'C09': 'a fourth mode with tuples holding mutable containers, input '
+           'conversion on and output conversion off (results must not '
+           'alias host data); residue in the supplied context; '
+           'context-less evaluations; hand-built libraries.',
+    'C10': 'one options dictionary reused for several engines; contexts '
+           'composed (LinkedContext, MultiContext) from a standard and a '
+           'hand-made finalizer-less context after the latter was used '
+           'alone; copy()/per-call option families.',
+    'C11': 'operands that fail when evaluated (trace up to the failure, '
+           'exception class, nothing afterwards); method calls on yaqlized '
+           'objects; generate/generateMany with decycle; ordering key '
+           'selectors at most once per element.',
+    'C12': 'the sweep repeated in contexts created under the Python and the '
+           'camelCase naming convention in one process in both creation '
+           'orders with keyword names computed by a model; lazily '
+           'evaluated parameters given values through positional / keyword '
+           '/ call() args / call() kwargs; calls that must be refused '
+           '(mandatory parameter skipped, unknown keyword) before the valid '
+           'spellings on the same context.',
+    'C13': 'collections with nulls; element types other than small integers '
+           '(strings, floats, 20-digit integers, frozen dictionaries) for '
+           'the 76 entries whose model is parametric in the elements '
+           '(parametricity tested on the model); collection arguments as '
+           'one-shot iterators; deeply nested dictionaries; which results '
+           'are lists and which are lazy.',
+    'C14': 'distinct(keySelector), accumulate with a seed.',
+    'C15': 'literal spellings of unary operators; combining sequences and '
+           'normalisation / case-folding look-alikes in the string corpus.',
+    'C16': 'words lexed by engines with more / fewer operator words in one '
+           'process; identifier letters that are not in NFKC form.',
+    'C18': 'a cold-start tier (fresh library context - also one assembled '
+           'by hand without finalizer - and freshly parsed statement per '
+           'run, thread A suspended at line granularity at the first '
+           'execution of every line per shared object while B evaluates); '
+           'nested-overlap schedules (A a points, B b points, A to its end, '
+           'B); three deeply nested statements.',
+    'C19': 'lazily evaluated selector forms, hex, replacement dictionaries '
+           'whose keys have one string form.',
+    'C20': 'the process time zone is set to UTC+5:30 for the whole check; '
+           'timespan arithmetic, format/parse, replace and now laws; a host '
+           'zone with a varying offset for the (d + t) - t / (d + t) - d '
+           'laws.',
+}
+
+
 def build():
     props = [json.loads(l) for l in open(os.path.join(ROOT,
                                                       'properties.jsonl'))]
@@ -347,6 +418,9 @@ def build():
         pid = p['id']
         if pid in CHECKS:
             tech, text, note, ref = CHECKS[pid]
+            if pid in ADDED:
+                text = text + ' Added while testing against seeded ' \
+                    'changes: ' + ADDED[pid]
             checks.append({
                 'property_id': pid,
                 'quick_cmd': './check %s quick' % pid,
